@@ -101,7 +101,8 @@ HostZones ==
 \* the caller's zone has daylight-saving time: lifetimes are elapsed seconds
 DstZones ==
   { [r EXCEPT !.zone = z, !.tz = 0, !.tz2 = 0] :
-      z \in {"America/New_York", "Europe/Berlin"},
+      \* (Europe/London, Europe/Lisbon: offset ZERO outside the summer - an aware start time whose utcoffset() is a falsy timedelta)
+      z \in {"America/New_York", "Europe/Berlin", "Europe/London", "Europe/Lisbon"},
       r \in { Req("derive", "ed25519", 1, C(8, 3), SgI("hmac", 32, 32, TRUE), NormalClock, i, du, 0) :
                  i \in { At(2024, 3, 9, 17, 0, 0), At(2024, 3, 30, 12, 0, 0), At(2024, 11, 2, 16, 0, 0), At(2024, 6, 1, 0, 0, 0) },
                  du \in {3600, 86400} } }
